@@ -255,6 +255,7 @@ class Execution:
         self.op_gen_steps = {}
         self.op_gsteps = {}
         self.out_digest = 0
+        self.ready = False if spec.get("flaky") else True
         self.single_fired = {}
         self.keep_outcomes = False
         self.full_outcomes = []
@@ -266,14 +267,15 @@ class Execution:
     def reference(self, nchunks, op):
         core = op_core(op)
         td = self.twin_dialect_for(core) if self.twin_dialect_for else None
-        key = json.dumps([nchunks, core, td], sort_keys=True)
+        key = json.dumps([nchunks, core, td, self.ready], sort_keys=True)
         if key in self.ref_cache:
             return self.ref_cache[key]
         if td:
             core = dict(core)
             core.pop("dialect", None)
             self.stats["twin_refs"] = self.stats.get("twin_refs", 0) + 1
-        uni = U.Universe(self.spec, "ref", upto_chunks=nchunks, twin_dialect=td)
+        uni = U.Universe(self.spec, "ref", upto_chunks=nchunks, twin_dialect=td,
+                         ready=self.ready)
         try:
             tr = T.OpTrace(budget_steps=self.step_budget, budget_depth=self.depth_budget)
             out = exec_single(uni, core, tr)
@@ -343,6 +345,13 @@ class Execution:
                 if k == "define":
                     self.sut.define(op["chunk"])
                     self.stats["defines"] += 1
+                    continue
+                if k == "heal":
+                    # the state user callbacks depend on becomes available
+                    self.ready = True
+                    if hasattr(self.sut.mod, "_READY"):
+                        self.sut.mod._READY[0] = True
+                    self.stats["heals"] = self.stats.get("heals", 0) + 1
                     continue
                 if k == "conc":
                     if not self.run_conc(idx, op):
